@@ -739,6 +739,36 @@ func c06Workloads(r *Run) {
 					callUnary(ctx, rig.CC, []byte(fmt.Sprintf("u%d-%d", round, i)))
 				}(i)
 			}
+			// methods spelled without the leading slash (the server accepts both spellings): the route of
+			// such a stream is as constant as any other's
+			for i := 0; i < 3; i++ {
+				wg.Add(1)
+				go func(i int) {
+					defer wg.Done()
+					bare := strings.TrimPrefix(mBidi, "/")
+					ctx := metadata.AppendToOutgoingContext(context.Background(), "x-tag", fmt.Sprintf("bare%d-%d", round, i), "x-prog", "echo")
+					if i == 2 {
+						out := new(wrapperspb.BytesValue)
+						rig.CC.Invoke(ctx, strings.TrimPrefix(mUnary, "/"), &wrapperspb.BytesValue{Value: []byte("bare")}, out)
+						return
+					}
+					cctx, cancel := context.WithCancel(ctx)
+					defer cancel()
+					cs, err := rig.CC.NewStream(cctx, descBidi, bare)
+					if err != nil {
+						return
+					}
+					sendB(cs, []byte("one"))
+					recvB(cs)
+					if i == 0 {
+						cs.CloseSend()
+						recvB(cs)
+					} else {
+						cancel()
+						recvB(cs)
+					}
+				}(i)
+			}
 			// cancellations: a held stream cancelled by its caller, one with a deadline
 			for i := 0; i < 3; i++ {
 				wg.Add(1)
